@@ -14,6 +14,7 @@ READ (never written) after each call.
 """
 from common import main
 import io, re, sys, hashlib, asyncio
+from typing import Optional
 import hdl21 as h
 from hdl21.elab import Elaborator, set_elaborator, reset_elaborator
 
@@ -316,18 +317,44 @@ def gen_history(job):
     A body makes its nested calls in order and, when its current mode says so (the designer changes the body between
     calls), ends after `i` of them: kind 0 raises RuntimeError, 1 returns something that is no Module, 2.. raise a
     BaseException that is no Exception (GEN_KINDS)."""
+    class NoName:
+        """a parameter value without a JSON form (kind 7): equal and hashed by value, so that the repeated call is the same call"""
+
+        def __init__(self, k):
+            self.k = k
+
+        def __eq__(self, other):
+            return type(other) is type(self) and other.k == self.k
+
+        def __hash__(self):
+            return hash(self.k)
+
+    noname = {}
+
     @h.paramclass
     class GP:
         w = h.Param(dtype=int, desc="w", default=1)
+        o = h.Param(dtype=Optional[NoName], desc="a value that cannot be named, or None", default=None)
 
     modes = {}
     runs = {}
     gens = []
 
+    def params_for(k):
+        # kind 7: the call is made with a parameter value that cannot be named: its body runs to the end, returns a Module,
+        # and NAMING that Module raises (TypeError from the JSON encoder) - a failure after the body ran
+        if modes.get(k, (None, 0))[1] == 7:
+            if k not in noname:
+                noname[k] = type(f"NoName{k}", (NoName,), {})
+            return GP(w=1, o=noname[k](k))
+        return GP(w=1)
+
     def mkgen(k, nested):
         def body(p: GP) -> h.Module:
             runs[k] = runs.get(k, 0) + 1
             lim, kind = modes.get(k, (None, 0))
+            if kind == 7:
+                lim = None
 
             def end():
                 if kind == 1:
@@ -337,7 +364,7 @@ def gen_history(job):
             for j, nk in enumerate(nested):
                 if lim is not None and j >= lim:
                     return end()
-                made.append(gens[nk](GP(w=1)))
+                made.append(gens[nk](params_for(nk)))
             if lim is not None:
                 return end()
             m = h.Module()
@@ -360,7 +387,7 @@ def gen_history(job):
         modes.clear()
         modes.update({int(k): tuple(v) for k, v in st["modes"].items() if v is not None})
         try:
-            m = gens[st["key"]](GP(w=1))
+            m = gens[st["key"]](params_for(st["key"]))
             # a generator call returns a Module or raises; anything else handed out is an outcome of its own
             r = dict(ok=m.name) if isinstance(m, h.Module) else dict(err=dict(cls="NotAModule", msg=repr(m)[:80]))
         except RecursionError as e:
